@@ -171,6 +171,10 @@ func FunctionScopesOfAST(filename string, content []byte) (BlockScopes, error) {
 	for _, node := range nodes {
 		switch n := node.(type) {
 		case *ast.FuncDecl:
+			if n.Body == nil {
+				// declaration without body (assembly, linkname): nothing to scope
+				continue
+			}
 			blockScopes = append(blockScopes, BlockScope{
 				StartLine: fset.Position(n.Body.Lbrace).Line,
 				EndLine:   fset.Position(n.Body.Rbrace).Line,
@@ -466,6 +470,9 @@ func functionTrackScopes(fset *token.FileSet, astFile *ast.File) (TrackScopes, e
 	for _, node := range nodes {
 		switch n := node.(type) {
 		case *ast.FuncDecl:
+			if n.Body == nil {
+				continue
+			}
 			trackScopes = append(trackScopes, TrackScope{
 				StartLine: fset.Position(n.Body.Lbrace).Line,
 				EndLine:   fset.Position(n.Body.Rbrace).Line,
